@@ -933,9 +933,11 @@ impl Recipe {
                     }
                     if self.kind == 3 {
                         // proper-prefix pairs: k, then k + "x" (two keys per step)
+                        // (value kind 0 means "a set": both keys of a pair carry 0)
+                        let odd = if self.values == 0 { 0 } else { 1 };
                         f(&buf, self.value(i).wrapping_mul(2));
                         buf.push(base + (h % fan) as u8);
-                        f(&buf, self.value(i).wrapping_mul(2).wrapping_add(1));
+                        f(&buf, self.value(i).wrapping_mul(2).wrapping_add(odd));
                     } else {
                         f(&buf, self.value(i));
                     }
